@@ -188,3 +188,34 @@ store_harness!(c12_param_replaced_pending_removal, {
     assert!(has(&store, &ID_A) && has(&store, &ID_B) && !has(&store, &ID_C));
     core::mem::forget(store);
 });
+
+//@ harness: c12_replaced_pending_removal_fixed_times
+//@ tier: thorough
+//@ timeout: 3000
+//@ mem: 20
+//@ covers: none
+//@ unwindset: put_bytes=80; heed::bytes_=260; heed::Table=6; memcmp.0=70; repeat::Repeat=190; Repeat.*try_fold=190; mmap_append=200; read_hex=34; enc_tags=6
+//@ cbmc: --max-field-sensitivity-array-size 1100
+//@ encodes: Store::store_event (replaceable path: remove_replaceable actually removing, find_replaceable_event_inner, Replaced), Store::remove_by_offset, Lmdb::deindex, heed model rollback
+//@ bounds: CONCRETE times (the solver quantifies only over the signature and one content byte of the offered event; with an arbitrary time the same scenario exceeds 20 GB): two events of one author and replaceable kind 10003 created at 0x1010 and 0x1080 are index entries of the store (seeded directly; a state the API itself never produces, used because it makes the pre-removal of store_event effective before the refusal); an event created at 0x1040 is offered: the pre-removal deletes the older event's index entries inside the transaction, the newer one is found, the store is refused as replaced - and no durable commit carried an effective put/delete: both seeded events are still retrievable
+//@ outside: arbitrary times; the parameterized path (c12_param_replaced_pending_removal)
+store_harness!(c12_replaced_pending_removal_fixed_times, {
+    let store = verif_store();
+    let mut bo = [0u8; 160];
+    let no = enc_event_img(10003, 0x1010, &ID_A, &PK_1, &SIG_0, &[], b"", b"o", &mut bo);
+    let mut bh = [0u8; 160];
+    let nh = enc_event_img(10003, 0x1080, &ID_B, &PK_1, &SIG_0, &[], b"", b"h", &mut bh);
+    let _ = seed_stored(&store, as_event(&bo[..no]));
+    let _ = seed_stored(&store, as_event(&bh[..nh]));
+    let env = crate::lmdb::verif_db_lmdb_helper::env_of(&store.indexes);
+    let commits = heed::verif::mutating_commits(env);
+    let sig: [u8; 64] = kani::any();
+    let c: u8 = kani::any();
+    let mut by = [0u8; 160];
+    let ny = enc_event_img(10003, 0x1040, &ID_C, &PK_1, &sig, &[], b"", &[c], &mut by);
+    let o = outcome(store.store_event(as_event(&by[..ny])));
+    assert!(o == Outcome::Replaced);
+    assert!(heed::verif::mutating_commits(env) == commits, "a store that failed as replaced made its pre-removal durable");
+    assert!(has(&store, &ID_A) && has(&store, &ID_B) && !has(&store, &ID_C));
+    core::mem::forget(store);
+});
